@@ -105,16 +105,25 @@ FpCodec(e) ==
             ELSE Clean(e) /\ IsFpVal(e, e.c, FpDecStr(e.in, e.radix, p).v)
       [] OTHER -> FALSE
 
+(* The bit that selects the root in a packed form is a PARAMETER of the format (C07 asks for a   *)
+(* unique canonical string that round-trips, not for a particular parity convention): it is what *)
+(* the library's representation makes it.  Where the code converts the coordinate to an integer   *)
+(* first (pairing-friendly branch of ep_pck/ep_upk) it is the IETF sign y > (p-1)/2; elsewhere    *)
+(* (ep non-pairing branch, fp2_pck, ed_pck) it is bit 0 of the STORED digits of the reduced       *)
+(* element, i.e. of y*R mod p in a Montgomery build (mont = 1) and of y itself otherwise.         *)
+RawSg(e) == IF e.mont = 1 THEN SgMont(BMod(FR(e), FPrime(e))) ELSE SgParity
+
 (* ---- F_p^2 elements, plain and packed (unitary) form.  v = a VARIANT of the reader:    *)
-(* the specification is StrictV; the other variants only key known findings:              *)
-(*   sg       sign function (SgParity = specified; SgMont = parity of the representation)  *)
+(* the specification is StrictV(e); the other variants only key known findings:           *)
+(*   sg       sign function: bit 0 of the stored representation of a1 (see RawSg)          *)
 (*   anybyte  a sign byte other than 0/1 is read as 0                                      *)
-(*   nofail   "a0 has no a1" is not reported: the object is left as (a0, raw bit)          *)
+(*   nofail   "no a1 with the requested sign" is not reported: the object is left as       *)
+(*            (a0, raw bit)                                                                *)
 (*   qm1      the ordinate is derived from a1^2 = 1 - a0^2 although i^2 = q # -1           *)
 (*   zsign    a1 = 0 is returned although the sign byte asks for the other root            *)
 QnrOf(e) == IF e.qnr < 0 THEN BSub(FPrime(e), BFromNat(0 - e.qnr)) ELSE BFromNat(e.qnr)
 F2COf(e) == [p |-> FPrime(e), q |-> QnrOf(e)]
-StrictV  == [sg |-> SgParity, anybyte |-> FALSE, nofail |-> FALSE, qm1 |-> FALSE, zsign |-> FALSE]
+StrictV(e) == [sg |-> RawSg(e), anybyte |-> FALSE, nofail |-> FALSE, qm1 |-> FALSE, zsign |-> FALSE]
 IsStrictButSg(v) == ~v.anybyte /\ ~v.nofail /\ ~v.qm1 /\ ~v.zsign
 
 Fp2ReadPacked(e, v) ==
@@ -124,16 +133,18 @@ Fp2ReadPacked(e, v) ==
         byte == e.in[e.fb + 1]
         bit  == IF byte = 1 THEN 1 ELSE 0
         w    == IF v.qm1 THEN FSub(<<1>>, FSqr(a0, p), p) ELSE Fp2PackedRhs(a0, fc)
+        sq   == FIsSquare(w, p)
+        r    == FSqrt(w, p)
+        a1   == IF SignBit(r, p, v.sg) = bit THEN r ELSE FNeg(r, p)
+        has  == sq /\ SignBit(a1, p, v.sg) = bit            \* an a1 with the requested sign exists
     IN  IF ~BLt(a0, p) \/ (byte \notin {0, 1} /\ ~v.anybyte) THEN Failed(e)
-        ELSE IF ~FIsSquare(w, p) THEN
-            (IF v.nofail THEN /\ Clean(e) /\ IsFpVal(e, e.c[1], a0) /\ Len(e.c[2]) = e.w * e.fd
-                              /\ BNorm(e.c[2]) = (IF bit = 1 THEN <<1>> ELSE <<>>)
-             ELSE Failed(e))
-        ELSE LET r  == FSqrt(w, p)
-                 a1 == IF SignBit(r, p, v.sg) = bit THEN r ELSE FNeg(r, p)
-             IN  IF SignBit(a1, p, v.sg) # bit /\ ~v.zsign THEN Failed(e)
-                 ELSE /\ Clean(e) /\ IsFpVal(e, e.c[1], a0) /\ IsFpVal(e, e.c[2], a1)
-                      /\ IsStrictButSg(v) => (e.rerr = 0 /\ e.re = e.in /\ e.g = 1)
+        ELSE IF has \/ (sq /\ v.zsign) THEN
+            /\ Clean(e) /\ IsFpVal(e, e.c[1], a0) /\ IsFpVal(e, e.c[2], a1)
+            /\ IsStrictButSg(v) => (e.rerr = 0 /\ e.re = e.in /\ e.g = 1)
+        ELSE IF v.nofail THEN
+            /\ Clean(e) /\ IsFpVal(e, e.c[1], a0) /\ Len(e.c[2]) = e.w * e.fd
+            /\ BNorm(e.c[2]) = (IF bit = 1 THEN <<1>> ELSE <<>>)
+        ELSE Failed(e)
 
 Fp2CodecV(e, v) ==
     LET fc == F2COf(e) IN
@@ -180,7 +191,7 @@ FpxCodec(e) ==
 
 (* ---- points *)
 CurveOf(e) == [p |-> FPrime(e), a |-> FAbs(e, e.ca), b |-> FAbs(e, e.cb)]
-SgOf(e) == IF e.pairf = 1 THEN SgHalf ELSE SgParity
+SgOf(e)  == IF e.pairf = 1 THEN SgHalf ELSE RawSg(e)
 (* a decoded point: reduced coordinates, the right abstract value (any coordinate system) *)
 IsPoint(e, R, Q) == PCanon(e, R) /\ PEq(PAbs(e, R), Q)
 (* the compressed OBJECT of ep_pck / ep_upk: x, raw y in {0, 1}, z = 1, affine *)
@@ -262,7 +273,7 @@ IsEp2Op(op) == op \in {"ep2_size_bin", "ep2_write_bin", "ep2_read_bin"}
 
 (* ---- Edwards points: raw [x, y, z, c]; c = 1 affine, otherwise (x/z, y/z).  ev = variant of the  *)
 (* reader: sg (sign function), neutral (the long forms of the neutral element are accepted),        *)
-(* zsign (x = 0 returned although the sign bit asks for the other root); EdStrict is the spec        *)
+(* zsign (x = 0 returned although the sign bit asks for the other root); EdStrict(e) is the spec     *)
 EdCurveOf(e) == [p |-> FPrime(e), a |-> FAbs(e, e.ea), d |-> FAbs(e, e.ed)]
 EdAbs(e, P) ==
     LET p == FPrime(e)
@@ -273,7 +284,7 @@ EdAbs(e, P) ==
         ELSE LET zi == FInv(z, p) IN EdPt(FMul(x, zi, p), FMul(y, zi, p))
 EdCanon(e, P) == FCanon(e, P.x) /\ FCanon(e, P.y) /\ FCanon(e, P.z) /\ FAbs(e, P.z) # <<>>
 EdValid(Q, ec) == Q.inf \/ EdOnCurve(Q, ec)
-EdStrict == [sg |-> SgParity, neutral |-> FALSE, zsign |-> FALSE]
+EdStrict(e) == [sg |-> RawSg(e), neutral |-> FALSE, zsign |-> FALSE]
 (* the reader's verdict and value under variant ev *)
 EdDecV(s, ec, fb, ev) ==
     LET d == EdDec(s, ec, fb, ev.sg) IN
@@ -319,22 +330,17 @@ CodecAccept(e) ==
     ELSE IF Has(e, "crash") THEN FALSE
     ELSE IF IsBnOp(e.op) THEN BnCodec(e)
     ELSE IF IsFpOp(e.op) THEN FpCodec(e)
-    ELSE IF e.op \in {"fp2_read_bin", "fp2_write_bin"} THEN Fp2CodecV(e, StrictV)
+    ELSE IF e.op \in {"fp2_read_bin", "fp2_write_bin"} THEN Fp2CodecV(e, StrictV(e))
     ELSE IF IsFpxOp(e.op) THEN FpxCodec(e)
     ELSE IF IsEpOp(e.op) THEN EpCodec(e)
     ELSE IF IsEp2Op(e.op) THEN Ep2CodecSk(e, "ietf")
-    ELSE IF IsEdOp(e.op) THEN EdCodecV(e, EdStrict)
+    ELSE IF IsEdOp(e.op) THEN EdCodecV(e, EdStrict(e))
     ELSE FALSE
 
 (***************************************************************************)
 (* Known findings (keys take effect only when listed in                    *)
 (* /verif/known_findings.json).  Each is keyed on op + input class + the   *)
 (* exact wrong outcome.                                                    *)
-(*  C07-ep-compress-montgomery-parity: on ordinary (not pairing-friendly)  *)
-(*    curves in a Montgomery-representation build the compression bit is   *)
-(*    the parity of the INTERNAL representation y*R mod p instead of the   *)
-(*    parity of y: the event is explained exactly by the sign function     *)
-(*    SgMont(R mod p) and not by the specified one.                        *)
 (*  C07-ep-read-bin-two-torsion-sign: ep_read_bin accepts the compressed   *)
 (*    string whose bit asks for the non-existing second ordinate over an x *)
 (*    with x^3+ax+b = 0 and returns (x, 0), which re-encodes differently.  *)
@@ -344,21 +350,16 @@ CodecAccept(e) ==
 (*    02 and decode(encode(P)) = -P.  The event is explained exactly by the *)
 (*    sign function "y1only" in the writer.                                 *)
 (*  fp2 packed form (fp2_pck / fp2_upk / fp2_read_bin, len = fb + 1):        *)
-(*   C07-fp2-compress-montgomery-parity   sign bit = parity of a1*R mod p    *)
 (*   C07-fp2-read-bin-sign-byte           sign byte other than 0/1 accepted  *)
 (*   C07-fp2-read-bin-upk-failure-ignored a0 without a1: no error, object    *)
 (*                                        left as (a0, raw bit)              *)
 (*   C07-fp2-upk-assumes-qnr-minus-one    a1^2 = 1 - a0^2 used when i^2 # -1 *)
 (*   C07-fp2-read-bin-zero-sign           a1 = 0 with sign byte 1 accepted   *)
 (*  Edwards points (ed_pck / ed_upk / ed_read_bin):                          *)
-(*   C07-ed-compress-montgomery-parity    sign bit = parity of x*R mod p     *)
 (*   C07-ed-read-bin-neutral-long-form    04 1 0 and 02 1 decode to the      *)
 (*                                        neutral element (canonically 00)   *)
 (*   C07-ed-read-bin-zero-sign            x = 0 with sign bit 1 accepted     *)
 (***************************************************************************)
-UsesSign(e) == \/ e.op \in {"ep_pck", "ep_upk"}
-               \/ (e.op = "ep_write_bin" /\ e.pack # 0)
-               \/ (e.op = "ep_read_bin" /\ Len(e.in) = e.fb + 1)
 TwoTorsionCase(e, sg) ==
     /\ e.op = "ep_read_bin" /\ Len(e.in) = e.fb + 1 /\ e.in[1] \in {2, 3}
     /\ LET c == CurveOf(e)
@@ -369,13 +370,11 @@ TwoTorsionCase(e, sg) ==
 (* fp2 packed form: the cheapest variant of the reader that explains the event; every deviation *)
 (* it uses is a finding of its own, ALL of them must be enabled                                   *)
 Fp2Variants(e) ==
-    {[sg |-> g, anybyte |-> ab, nofail |-> nf, qm1 |-> qm, zsign |-> zs] :
-        g \in ({SgParity} \cup (IF e.mont = 1 THEN {SgMont(BMod(FR(e), FPrime(e)))} ELSE {})),
+    {[sg |-> RawSg(e), anybyte |-> ab, nofail |-> nf, qm1 |-> qm, zsign |-> zs] :
         ab \in BOOLEAN, nf \in BOOLEAN, qm \in (IF e.qnr = 0 - 1 THEN {FALSE} ELSE BOOLEAN), zs \in BOOLEAN}
 B2N(b) == IF b THEN 1 ELSE 0
-VCost(v) == B2N(v.sg.kind = "mont") + B2N(v.anybyte) + B2N(v.nofail) + B2N(v.qm1) + B2N(v.zsign)
-VKeys(v) == (IF v.sg.kind = "mont" THEN {"C07-fp2-compress-montgomery-parity"} ELSE {})
-            \cup (IF v.anybyte THEN {"C07-fp2-read-bin-sign-byte"} ELSE {})
+VCost(v) == B2N(v.anybyte) + B2N(v.nofail) + B2N(v.qm1) + B2N(v.zsign)
+VKeys(v) == (IF v.anybyte THEN {"C07-fp2-read-bin-sign-byte"} ELSE {})
             \cup (IF v.nofail THEN {"C07-fp2-read-bin-upk-failure-ignored"} ELSE {})
             \cup (IF v.qm1 THEN {"C07-fp2-upk-assumes-qnr-minus-one"} ELSE {})
             \cup (IF v.zsign THEN {"C07-fp2-read-bin-zero-sign"} ELSE {})
@@ -385,12 +384,9 @@ Fp2KnownKeys(e) ==
     ELSE VKeys(CHOOSE v \in Vs : \A u \in Vs : VCost(v) <= VCost(u))
 
 EdVariants(e) ==
-    {[sg |-> g, neutral |-> nt, zsign |-> zs] :
-        g \in ({SgParity} \cup (IF e.mont = 1 THEN {SgMont(BMod(FR(e), FPrime(e)))} ELSE {})),
-        nt \in BOOLEAN, zs \in BOOLEAN}
-EdVCost(v) == B2N(v.sg.kind = "mont") + B2N(v.neutral) + B2N(v.zsign)
-EdVKeys(v) == (IF v.sg.kind = "mont" THEN {"C07-ed-compress-montgomery-parity"} ELSE {})
-              \cup (IF v.neutral THEN {"C07-ed-read-bin-neutral-long-form"} ELSE {})
+    {[sg |-> RawSg(e), neutral |-> nt, zsign |-> zs] : nt \in BOOLEAN, zs \in BOOLEAN}
+EdVCost(v) == B2N(v.neutral) + B2N(v.zsign)
+EdVKeys(v) == (IF v.neutral THEN {"C07-ed-read-bin-neutral-long-form"} ELSE {})
               \cup (IF v.zsign THEN {"C07-ed-read-bin-zero-sign"} ELSE {})
 EdKnownKeys(e) ==
     LET Vs == {v \in EdVariants(e) : EdCodecV(e, v)} IN
@@ -406,9 +402,6 @@ CodecKnownKeys(e) ==
         (IF e.op # "ep2_size_bin" /\ Ep2CodecSk(e, "y1only") THEN {"C07-ep2-pck-sign-y1-zero"} ELSE {})
     ELSE IF ~IsEpOp(e.op) THEN {}
     ELSE IF TwoTorsionCase(e, SgOf(e)) THEN {"C07-ep-read-bin-two-torsion-sign"}
-    ELSE IF UsesSign(e) /\ e.mont = 1 /\ e.pairf = 0 THEN
-        LET sgm == SgMont(BMod(FR(e), FPrime(e))) IN
-        IF EpCodecSg(e, sgm) THEN {"C07-ep-compress-montgomery-parity"} ELSE {}
     ELSE {}
 (* a single representative ("" = none) *)
 CodecKnownKey(e) == LET ks == CodecKnownKeys(e) IN IF ks = {} THEN "" ELSE CHOOSE k \in ks : TRUE
